@@ -1,5 +1,5 @@
 ENGINES = [
- {"name": "tlc", "path": "lib/vlib.py", "serves_properties": ["C01", "C02", "C03", "C04", "C05", "C07", "C08", "C09", "C10", "C11", "C12", "C14", "C15", "C16", "C17"],
+ {"name": "tlc", "path": "lib/vlib.py", "serves_properties": ["C01", "C02", "C03", "C04", "C05", "C06", "C07", "C08", "C09", "C10", "C11", "C12", "C13", "C14", "C15", "C16", "C17"],
   "kind_free_text": "TLC model checking of the TLA+ specifications in spec/, and TLC validation (fold mode) of executions recorded from the real code by the harnesses in harness/"},
 ]
 NOTES = ("One orchestrator (bin/vcheck) per property. Specifications live in spec/ (Word, HexISA, ...); harnesses in harness/ are "
@@ -93,4 +93,15 @@ CHECKS = {
           "states, free read data, reset pulses) and substituted under the same hex.sv/memory.sv on whole programs; records must be identical "
           "and every clock conforms to HexRTL.",
   "note": "Verilog text only (yosys flow not executed). HexRTL disagreement common to all builds is drift, not a violation."},
+ "C06": {"level": "model_checking", "design_ref": "DESIGN.md 5 (C06)",
+  "technique": "TLC validation of hexsim AND hextb records of the same binary against HexISA (SimV) + Determinism.tla over both, incl. the executables",
+  "text": "Both implementations are validated against one deterministic definition (HexISA) on binaries whose precondition (never reads "
+          "unwritten memory) is decided by the specification's ghost sets; the built hexsim/hextb executables are compared on stdout after the banner and exit status.",
+  "note": "Input consumption observed in process only. hextb runs use hextb.cpp's own load()/run() through the HEX_VERIF hook."},
+ "C13": {"level": "model_checking", "design_ref": "DESIGN.md 2.2, 5 (C13)",
+  "technique": "TLC model checking of HexTB over all power-on states of a small instance + TLC validation of recorded hextb half-cycle traces (TbV) + Determinism.tla across seeds/planted states",
+  "text": "The reset protocol is a state-space question: TLC visits every power-on state (registers, non-image memory words from adversarial "
+          "words) of a scaled instance and checks Quiescent/StartState/PowerOnIndependent; the real hextb run() is driven from planted "
+          "adversarial states and many seeds and its records validated against the same spec.",
+  "note": "Power-on states of the real model are those reachable by planting and +verilator+seed. Reset window timing is mechanism grade."},
 }
